@@ -71,6 +71,7 @@ def run_registry(case):
   courier.PLANS[(addr, 'maybe_make')] = ['hold'] * 200
   client = courier_utils.CourierClient(addr, heartbeat_threshold_secs=T)
   reg = courier_utils.worker_registry()
+  reg.data.clear()       # the registry is process-global: every case starts from an empty one (cases must replay on their own)
   what = f'ops={case["ops"]}'
   # model
   last = 'unknown'           # 'unknown' | 'DEAD' | float
@@ -105,6 +106,11 @@ def run_registry(case):
     elif k == 'unregister':
       reg.unregister(addr)
       last, dead_since_unregister = 'DEAD', True
+    elif k == 'others_join':
+      # other workers register (the registry is shared by all workers of the process: 1, or a crowd crossing 2**7 entries);
+      # this must not change what is recorded for this worker
+      for j in range(op[1]):
+        reg.register(f'{addr}_other{next(_uid)}', Clock.now)
     elif k == 'call':
       client.call(b'x')
       pend.append([Clock.now, False, False])
@@ -154,10 +160,20 @@ def strat_registry(tier):
       st.tuples(st.just('register'), st.sampled_from([0.0, -50.0, -150.0, 10.0])).map(list),
       st.tuples(st.just('refresh'), st.sampled_from([0.0, -50.0, -150.0, 10.0])).map(list),
       st.just(['unregister']), st.just(['call']), st.just(['is_alive']), st.just(['is_alive']),
+      st.tuples(st.just('others_join'), st.sampled_from([1, 1, 2, 130])).map(list),
       st.tuples(st.just('release'), st.integers(0, 3), st.booleans()).map(list),
       st.tuples(st.just('release'), st.integers(0, 3), st.just(True)).map(list),
   )
-  return st.lists(op, min_size=3, max_size=25 if tier == 'quick' else 50).map(lambda ops: {'ops': ops})
+  @st.composite
+  def s(draw):
+    ops = draw(st.lists(op, min_size=3, max_size=25 if tier == 'quick' else 50))
+    if draw(st.integers(0, 5)) == 0:
+      # the worker dies, many others join meanwhile, then a stale sign of life of the dead worker arrives
+      i = draw(st.integers(0, len(ops)))
+      late = draw(st.sampled_from([[['refresh', 0.0]], [['release', 0, True]], [['refresh', -50.0]]]))
+      ops[i:i] = [['call'], ['unregister'], ['others_join', draw(st.sampled_from([1, 127, 130]))]] + late + [['is_alive']]
+    return {'ops': ops}
+  return s()
 
 
 # ------------------------------------------------------------------------------------------------ (a') concurrent registry ops
